@@ -248,7 +248,7 @@ def tlc_pack(ctx, pk, ops, dev, tag, workers=2, timeout=1500, target=None):
 def extract_lockorder(ctx):
     """harness/cmd/lockorder on server/stats.go -> the constants of spec/LockOrder.tla"""
     bindir = ctx.go_build(["./cmd/lockorder"])
-    r = subprocess.run([os.path.join(bindir, "lockorder"), os.path.join(vlib.REPO, "server", "stats.go")],
+    r = subprocess.run([os.path.join(bindir, "lockorder"), os.path.join(vlib.REPO, "server", "stats.go"), os.path.join(vlib.REPO, "server", "client.go")],
                        stdout=subprocess.PIPE, stderr=subprocess.PIPE, text=True)
     if r.returncode != 0:
         raise vlib.MachineryError("lockorder extraction failed: " + r.stderr[-2000:])
@@ -256,18 +256,21 @@ def extract_lockorder(ctx):
     if not t.get("known_shape"):
         raise vlib.MachineryError("lockorder: server/stats.go no longer has the functions LockOrder.tla speaks about (getClientStats, "
                                   "GetClientStats, packetSent, addQueueLen): the model must be revisited")
-    return {"TouchReadsStore": bool(t["touch_reads_store"]), "ReadHoldsMu": bool(t["read_holds_mu"])}, t
+    if not t.get("poll_inflights_known"):
+        raise vlib.MachineryError("lockorder: pollInflights no longer calls pl.lock and queueStore.ReadInflight: the model must be revisited")
+    return {"TouchReadsStore": bool(t["touch_reads_store"]), "ReadHoldsMu": bool(t["read_holds_mu"]),
+            "PollLimiterFirst": bool(t["poll_limiter_first"])}, t
 
 
-LOCK_KINDS = ["deliver", "subscribe", "touch", "statsread", "poll", "register"]
+LOCK_KINDS = ["deliver", "subscribe", "touch", "statsread", "poll", "pollinfl", "register"]
 
 
 def tlc_lockorder(ctx, consts, kinds, tag):
     """model-check LockOrder.tla; returns (TlcResult, the path that holds `stats` in the stuck state or None)"""
     tl = lambda b: "TRUE" if b else "FALSE"
     body = "mc_Kinds == {%s}\n" % ", ".join(vlib.tla_str(k) for k in kinds)
-    cfg = ("SPECIFICATION Spec\nCONSTANTS\n TouchReadsStore = %s\n ReadHoldsMu = %s\n Kinds <- mc_Kinds\n"
-           "INVARIANTS NoLockCycle Exclusive\nPROPERTIES Finishes\nCHECK_DEADLOCK FALSE\n" % (tl(consts["TouchReadsStore"]), tl(consts["ReadHoldsMu"])))
+    cfg = ("SPECIFICATION Spec\nCONSTANTS\n TouchReadsStore = %s\n ReadHoldsMu = %s\n PollLimiterFirst = %s\n Kinds <- mc_Kinds\n"
+           "INVARIANTS NoLockCycle Exclusive\nPROPERTIES Finishes\nCHECK_DEADLOCK FALSE\n" % (tl(consts["TouchReadsStore"]), tl(consts["ReadHoldsMu"]), tl(consts["PollLimiterFirst"])))
     name = "LockOrder_" + tag
     tj = os.path.join(ctx.tmp("ce"), name + ".json")
     res = ctx.tlc("LockOrder", body, cfg, name=name, workers=2, timeout=600, deadlock=True, extra=["-dumpTrace", "json", tj], extends="LockOrder")
@@ -277,13 +280,14 @@ def tlc_lockorder(ctx, consts, kinds, tag):
         raise vlib.MachineryError("TLC reported a violation on %s without a trace:\n%s" % (name, res.violation[:1500]))
     with open(tj) as fh:
         last = [s[1] for s in json.load(fh)["counterexample"]["state"]][-1]
-    return res, last["holder"].get("stats") or "?"
+    # the third party: whoever holds clientMu in the stuck state, else whoever holds a limiter
+    return res, last["holder"].get("stats") or last["holder"].get("limiter") or "?"
 
 
 def lock_scenarios(third, seed, n=2):
     """the real-broker scenarios for a lock cycle whose third party (the holder of clientMu) is `third`"""
-    if third == "statsread":
-        return [{"id": "ce_lock_statsread", "kind": "lockorder", "conns": [dict(k=1, ver=5, cid="statsread")]}]
+    if third in ("statsread", "pollinfl"):
+        return [{"id": "ce_lock_" + third, "kind": "lockorder", "conns": [dict(k=1, ver=5, cid=third)]}]
     return [{"id": "ce_lock_touch_%d" % i, "kind": "pairs", "seed": 2 * (seed + i),
              "storm": {"clients": 24, "ids": 4, "ops": 100, "api": 0, "stop_lo_ms": 0, "stop_hi_ms": 1}} for i in range(n)]
 
